@@ -17,13 +17,15 @@ from checks import graphviews
 ID = "C16"
 LEVEL = "exploration"
 RULE = ("one run = one history of <= 40 update operations on one graph "
-        "object (type, initial size 0..8 and constructor sampled), all views "
+        "object (type, initial size 0..33 and constructor sampled; growth up "
+        "to 40 vertices; networkx import with arbitrary node order), all "
+        "views "
         "compared with a set-of-edges model after every operation. "
         "Non-trivial: the history contains at least one successful mutation "
         "and at least one refused or duplicate operation; distinct = "
         "distinct (type, size, operation list).")
 ASSUMPTIONS = ["vertex arguments are integers (non-integer arguments are a "
-               "gray zone)", "sizes <= 8 initial, <= 12 after growth"]
+               "gray zone)", "sizes <= 33 initial, <= 40 after growth"]
 COMPONENTS = {"real": ["cnfgen.graphs.Graph / DirectedGraph / BipartiteGraph"
                        " / CompleteBipartiteGraph and the three EdgeList "
                        "views", "networkx conversion"],
